@@ -135,3 +135,20 @@ K('C04.a2.sel', property='C04', engine='symex', harness='C04/covmat.cpp',
   timeout_ms={'quick': 60000, 'thorough': 600000}, validate={'quick': 4, 'thorough': 20}, validate_doubles='int',
   what='same pairs of functions under a CovCalcMode that selects one basic structure: the optimised matrix must be the sum over the selected structures only, as ACovAnisoList::eval computes',
   out='as C04.a2.sym', assumptions=_CM_ASSUME, stubs=_CM_STUBS)
+
+# ---- C04.m glue after the ball-tree query in point -> point migration (added after seeded change r5_ball_dmax_swap)
+for _dt in (1, 2):
+    K('C04.m.%d' % _dt, property='C04', engine='symex', harness='C04/migball.cpp', entry='k_migrate_ball',
+      tus=['src/Calculators/CalcMigrate.cpp', 'src/Db/Db.cpp', 'src/Tree/Ball.cpp', 'src/Basic/Utilities.cpp', 'src/Basic/AStringable.cpp'],
+      defines={'all': {'VF_DT': _dt, 'VF_ND': 2}, 'quick': {'VF_NS': 3, 'VF_NT': 2}, 'thorough': {'VF_NS': 4, 'VF_NT': 3}},
+      bounds={'quick': '3 sources, 2 targets (thorough: 4 and 3) in 2-D on the integer grid |x| <= 1024, every mask pattern of the targets, dmax > 0 per direction, distance type %d, '
+                       'every answer of the tree (any source rank per distinct target position)' % _dt},
+      timeout_ms={'quick': 100000, 'thorough': 600000}, validate={'quick': 50, 'thorough': 100}, validate_doubles='int',
+      what='CalcMigrate::_expandPointToPointBall + st_larger_than_dmax with the real Db::hasSameDimension: an active target receives the value of the source the tree returns for its own coordinates '
+           'iff the vector between the target and THAT source passes the maximum-distance test (as the exhaustive path tests it); otherwise it is left alone',
+      out='the ball tree itself (C06.c, C10.g); the exhaustive path restricting the search to sources within dmax before taking the nearest (the two paths differ by design when the nearest '
+          'source is beyond dmax and a farther one is within the box); empty dmax; masked sources (the tree is built with useSel = false)',
+      assumptions=['coordinates, values and dmax on the integer grid (exact in IEEE double)'],
+      stubs=['Ball::Ball(const Db*, ...), ~Ball, Ball::queryClosest -> black box: an arbitrary source rank, a function of the query coordinates',
+             'distance_inter -> its definition: difference of the coordinates of sample iech1 of db1 and sample iech2 of db2 (return value 0: discarded by the caller)',
+             'Db objects are raw storage with the real vtable; Db::getNDim, getSampleNumber, isActive, getCoordinatesPerSampleInPlace, getArray -> the symbolic tables'])
